@@ -88,6 +88,7 @@ func loadEngine(repo, theoryDir string) (*engine, error) {
 		return nil, err
 	}
 	e.snapshotFile = filepath.Join(theoryDir, "locals.snapshot")
+	theEngine = e
 	e.db, err = loadContracts(files)
 	if err != nil {
 		return nil, err
